@@ -168,6 +168,9 @@ def collect(prop, tier):
             fs = (best + with_dial[:n - n // 2 - n // 5] + without[:n // 5] + with_dial[n - n // 2 - n // 5:])[:n]
             for j, s in enumerate(fs):
                 s["burst"] = 1 + 2 * (j % 2)
+                # both SKI orderings: the specification calls the hub with the higher SKI "A"; with high = "B" the script is the
+                # mirror image (the model is symmetric in the two users' operations)
+                s["high"] = "AB"[(j // 2) % 2]
                 if fam == "wrongA":
                     s["ids"] = dict(A="wrong", B=("none", "right")[j % 2])
                 elif fam == "wrongB":
